@@ -4,7 +4,7 @@ A case is a workload (files, one build job per thread: `Builder()` + `add_source
 + `build()`) and a schedule (which thread starts, list of preemptions `[thread, local step, target]`).
 The implementation run executes the jobs in real threads under a deterministic scheduler: a
 `sys.settrace` tracer lets exactly one thread run at a time and hands control over only at 'line'
-events inside nodes/node.py, builder.py, errors.py, yaml.py of the implementation, at the local step
+events inside the source files of the implementation (every .py file of the package), at the local step
 numbers named by the schedule (CHESS style preemption bounding; a thread runs until it is preempted or
 finishes).  The same tracer records, by source line, the events of the slot machine of
 lean/AY/Model/Slots.lean: the single lines of `ConfigNode.default_filename` /
@@ -26,8 +26,16 @@ from common import Builder, ConfigNode, REPO, ayerrors
 from framework import Prop, case_digest
 
 PKG = os.path.realpath(os.path.join(REPO, 'awesomeyaml'))
-SWITCH_FILES = {os.path.join(PKG, 'nodes', 'node.py'): 'node', os.path.join(PKG, 'builder.py'): 'builder',
-                os.path.join(PKG, 'errors.py'): 'errors', os.path.join(PKG, 'yaml.py'): 'yaml'}
+# every source file of the package is a place where the scheduler may hand control over (shared state may live anywhere,
+# not only next to the thread-local slots); the four files holding slot-machine lines keep their short tags
+SWITCH_FILES = {}
+for _d, _sub, _fs in os.walk(PKG):
+    for _f in _fs:
+        if _f.endswith('.py'):
+            _p = os.path.join(_d, _f)
+            SWITCH_FILES[_p] = os.path.relpath(_p, PKG)
+SWITCH_FILES.update({os.path.join(PKG, 'nodes', 'node.py'): 'node', os.path.join(PKG, 'builder.py'): 'builder',
+                     os.path.join(PKG, 'errors.py'): 'errors', os.path.join(PKG, 'yaml.py'): 'yaml'})
 STALL_S = 60.0
 
 # ----------------------------------------------------------------------------------------------
@@ -142,8 +150,10 @@ class Run:
         if has_obs:
             self.observed.append([tid, observed])
 
-    def flush(self, tid):
+    def flush(self, tid, force=False):
         idx, obj, attr = self.pending[tid]
+        if not force and attr not in getattr(obj, '__dict__', {attr: 0}):
+            return      # the assignment of the recorded line is still running (a traced __setattr__ of a container class)
         self.pending[tid] = None
         self.observed[idx][1] = self.val(getattr(obj, attr, 'repr:<unset>'))
 
@@ -225,7 +235,7 @@ class Run:
             finally:
                 sys.settrace(None)
                 if self.pending[tid] is not None:
-                    self.flush(tid)
+                    self.flush(tid, force=True)
             self.results[tid] = {'nodes': observe_tree(root, self), 'err': None}
         except Exception as e:   # noqa
             self.results[tid] = {'nodes': None, 'err': observe_error(e, self)}
@@ -485,8 +495,8 @@ class C20(Prop):
     THOROUGH_N = 3000
     RULE = ('2-3 real threads, each Builder()+add_source(file, safe=flag)...+build() from different files with different safe '
             'flags, nested/shared/unsafe includes and failing inputs (missing include, invalid YAML, unknown tag, !notnew), '
-            'under a deterministic sys.settrace scheduler that switches threads only at line events of nodes/node.py, '
-            'builder.py, errors.py, yaml.py; quick = fixed workloads + random workloads with 1-25 random preemptions biased '
+            'under a deterministic sys.settrace scheduler that switches threads only at line events of the package\'s own '
+            'source files (all of them); quick = fixed workloads + random workloads with 1-25 random preemptions biased '
             'to the lines of the context managers, of api_entry and of the reads in ConfigNode.__init__; thorough = in '
             'addition every schedule with 2 preemptions at those lines on the workload tiny2 and every schedule with one '
             'preemption (at every line step) on tiny2 and plain2; '
